@@ -124,6 +124,15 @@ def run_case(case):
     obs = {}
     try:
         AH = A.H
+        if "|roundtrip" in sig:
+            # ... and so did the adjoint object (e.g. the one inside a pickled A.H * A)
+            import copy
+            import pickle
+            try:
+                AH = pickle.loads(pickle.dumps(AH)) if sum(case["rs"]) % 12 == 4 else \
+                    copy.deepcopy(AH)
+            except Exception:
+                pass
         checks += 1
         if list(AH.ishape) != list(A.oshape) or list(AH.oshape) != list(A.ishape):
             return violated(sig, "adjoint shapes not swapped: A %s<-%s, A.H %s<-%s" % (
@@ -212,7 +221,8 @@ def run_case(case):
         # history: the caller overwrites, in place, the arrays the operator was built from
         # (new coil maps / filter / multiplier values in the same buffers) after A.H has been
         # taken: the pair must stay an adjoint pair - neither side may hold a private snapshot
-        if sum(case["rs"]) % 4 == 0:
+        # (not after a serialisation round trip of A.H: a pickled copy has arrays of its own)
+        if sum(case["rs"]) % 4 == 0 and "|roundtrip" not in sig:
             caps = [(n_, v_) for n_, v_ in linop_mon.captured_tree(A).values()
                     if v_.flags.writeable and v_.dtype.kind in "fc" and v_.size
                     and not n_.endswith(("coord", ".psf"))]
